@@ -119,7 +119,8 @@ def rule_i3(repo, res, guard_info):
     offending character."""
     exc = repo.module("exceptions")
     # firstpos(sub, pos) == pos - len(sub) + 1
-    fp = repo.function("exceptions", "firstpos")
+    from . import canon as _canon0
+    fp = _canon0.canon_function(repo, "exceptions", "firstpos")
     p = [a.arg for a in fp.args.args]
     rets = [n for n in ast.walk(fp) if isinstance(n, ast.Return)]
     ok = False
@@ -134,7 +135,8 @@ def rule_i3(repo, res, guard_info):
                         "lexeme whose last character is at pos): every token position and error position shifts",
                         where=f"pvl/exceptions.py:{fp.lineno}"))
     # linecount(doc, end, start=0) == doc.count("\n", start, end) + 1
-    lc = repo.function("exceptions", "linecount")
+    from . import canon as _canon
+    lc = _canon.canon_function(repo, "exceptions", "linecount")         # named temporaries (newlines = doc.count(..)) read in place
     p = [a.arg for a in lc.args.args]
     rets = [n for n in ast.walk(lc) if isinstance(n, ast.Return)]
     ok = False
